@@ -24,7 +24,7 @@ impl Scenario for C10 {
         }
     }
     fn rule(&self) -> String {
-        "every run builds one fresh valid instance of each of the 15 serialised artifact kinds (local/public token; local/public/secret/PKE-public/PKE-secret key text; lid/pid/sid; PIE local/secret; PBKW local/secret; seal) on each of the 6 backends and offers each of the 90 texts to each of the 90 (backend, kind) parsers: accepted iff same version and same kind (Public/PkePublic and Secret/PkeSecret share a header by design and are the same key type except on v1, where the modulus size tells them apart); plus key byte strings of every other kind's length offered as every key kind and every authenticated blob re-labelled to every other version/kind and unwrapped with the right secret. distinct = (reader, parser kind, origin version, origin kind, outcome)".into()
+        "every run builds one fresh valid instance of each of the 15 serialised artifact kinds (local/public token; local/public/secret/PKE-public/PKE-secret key text; lid/pid/sid, the ids of all five key kinds; PIE local/secret; PBKW local/secret; seal) on each of the 6 backends and offers each of the 90 texts to each of the 90 (backend, kind) parsers: accepted iff same version and same kind (Public/PkePublic and Secret/PkeSecret share a header by design and are the same key type except on v1, where the modulus size tells them apart); plus key byte strings of every other kind's length offered as every key kind and every authenticated blob re-labelled to every other version/kind and unwrapped with the right secret. distinct = (reader, parser kind, origin version, origin kind, outcome)".into()
     }
     fn extra_coverage(&self, _s: &crate::world::Stats) -> std::collections::BTreeMap<String, serde_json::Value> {
         let mut m = std::collections::BTreeMap::new();
@@ -59,7 +59,7 @@ impl Scenario for C10 {
             for slot in [fk.local, fk.public, fk.secret, fk.pke_public, fk.pke_secret] {
                 texts.push(TextRef::Key { slot });
             }
-            for slot in [fk.local, fk.public, fk.secret] {
+            for slot in [fk.local, fk.public, fk.secret, fk.pke_public, fk.pke_secret] {
                 b.push(Step::Id { node, slot });
                 texts.push(TextRef::IdOf { slot });
             }
